@@ -148,5 +148,5 @@ func Ops() []*core.Op {
 			Signature:  func(raw json.RawMessage, _ any) string { return "history" },
 			Shrink:     shrinkHistory,
 		},
-	}, append(leafOps(), controllerOp())...)
+	}, append(append(leafOps(), controllerOp()), commandsOp())...)
 }
